@@ -137,6 +137,29 @@ def run(ctx):
                     cmp_in_closure = any(prog.body(d_) is not None and any(cc.name in ("PartialEq::eq", "PartialEq::ne") for (_, cc, _) in prog.body(d_).calls()) for d_ in clos)
                     if from_table and (cmp_in_closure or c.method == "contains"):
                         checks.append((blk, Callee({"path": "core::cmp::PartialEq::eq", "trait": "core::cmp::PartialEq", "method": "eq", "args": []}) if c.method != "all" else c, t))
+            if not checks:
+                # the comparison extracted into a `verify(&self, sent) -> bool` helper: the check is the bool it returns - if the helper *is* an
+                # equality. A fold over `zip`ped bytes compares only as many bytes as the shorter side has: without a length test every prefix of
+                # the credential (the empty line included) verifies.
+                for (blk, c, t) in b.calls():
+                    hb = prog.body(c.target)
+                    if blk not in region or hb is None or hb.local_ty(0) != "bool" or not c.target.startswith("octo_squirrel"):
+                        continue
+                    from_src = any(op_place(a) and 2 in b.slice_back([op_place(a)[0]])[0] for a in t["args"])
+                    touches_key = any(op_place(a) and _is_self(b, op_place(a)[0]) or (op_place(a) and any(_is_self(b, l_) for l_ in b.slice_back([op_place(a)[0]], stop_call=lambda c_: True)[0])) for a in t["args"])
+                    if not (from_src and touches_key):
+                        continue
+                    hf = prog.flat(hb.defp)
+                    names = [cc.name for fbx in prog.family(hb.root) for (_, cc, _) in fbx.calls()]
+                    zipped = any(n_.endswith("::zip") for n_ in names)
+                    len_tested = sum(1 for n_ in names if n_.endswith("::len")) >= 2 or any(n_ in ("PartialEq::eq", "PartialEq::ne") for n_ in names)
+                    xor_or = any("bitxor" in n_.lower() for n_ in names) or any(s_["k"] == "assign" and s_["rv"]["k"] == "bin" and s_["rv"]["op"] == "BitXor" for fbx in prog.family(hb.root) for bl in fbx.rpo() for s_ in fbx.stmts(bl))
+                    is_eq = not (zipped and not len_tested)
+                    ctx.ob("A1", hb.defp, "trojan:credential-compare-covers-the-whole-credential", loc(t["sp"]), is_eq,
+                           "the credential helper compares the whole credential" if is_eq else
+                           f"`{last_seg(hb.defp)}` folds over `zip`ped bytes and never compares the lengths: the comparison covers only as many bytes as the peer sent, so every prefix "
+                           "of the credential - the empty password line included - verifies, and a peer without the password is relayed")
+                    checks.append((blk, Callee({"path": "core::cmp::PartialEq::eq", "trait": "core::cmp::PartialEq", "method": "eq", "args": []}), t))
             ctx.floor("A1", "trojan credential comparison", 1, len(checks))
             for (blk, c, t) in checks:
                 gates = [g for g in gates_of_value(b, t["dest"][0]) if g.kind == "bool"]
